@@ -1124,7 +1124,9 @@ func empiricalQuantile(p float64, x, weights []float64, sumWeights float64) floa
 			return x[i]
 		}
 	}
-	panic("impossible")
+	// Rounding can leave the running sum of the weights just
+	// below p times their total; the last sample is the answer.
+	return x[len(x)-1]
 }
 
 func linInterpQuantile(p float64, x, weights []float64, sumWeights float64) float64 {
@@ -1147,7 +1149,9 @@ func linInterpQuantile(p float64, x, weights []float64, sumWeights float64) floa
 			return t*x[i-1] + (1-t)*x[i]
 		}
 	}
-	panic("impossible")
+	// Rounding can leave the running sum of the weights just
+	// below p times their total; the last sample is the answer.
+	return x[len(x)-1]
 }
 
 // Skew computes the skewness of the sample data.
